@@ -211,6 +211,7 @@ pub trait Oracle {
 struct LockQueue {
     pending: VecDeque<(String, u8, UpdateOp)>,
     timeline: Vec<TL>,
+    tracker: crate::verif::nodes::outstation::StaticTracker,
 }
 
 /// driver state visible to oracles
@@ -256,6 +257,7 @@ pub async fn drive(sim: &Sim, case: &SoutCase, oracle: &mut dyn Oracle) -> RunSu
     let lockq: Arc<Mutex<LockQueue>> = Arc::new(Mutex::new(LockQueue {
         pending: VecDeque::new(),
         timeline: Vec::new(),
+        tracker: crate::verif::nodes::outstation::StaticTracker::new(&node.cfg),
     }));
     {
         let lockq = lockq.clone();
@@ -273,7 +275,7 @@ pub async fn drive(sim: &Sim, case: &SoutCase, oracle: &mut dyn Oracle) -> RunSu
                 if matches {
                     if q.pending[i].1 == 0 {
                         let (_, _, op) = q.pending.remove(i).unwrap();
-                        let info = db.transaction(|d| op.apply(d));
+                        let (op, info) = { let tr = &mut q.tracker; db.transaction(|d| tr.apply(&op, d)) };
                         let t = crate::verif::kernel::current()
                             .map(|c| c.now_ms())
                             .unwrap_or(0);
@@ -348,7 +350,7 @@ pub async fn drive(sim: &Sim, case: &SoutCase, oracle: &mut dyn Oracle) -> RunSu
             let leftovers: Vec<(String, u8, UpdateOp)> =
                 lockq.lock().unwrap().pending.drain(..).collect();
             for (_, _, u) in leftovers {
-                let info = node.handle.transaction(|d| u.apply(d));
+                let (u, info) = { let mut q = lockq.lock().unwrap(); let tr = &mut q.tracker; node.handle.transaction(|d| tr.apply(&u, d)) };
                 sim.log(|| format!("user transaction (queued for a lock point that did not come): {:?} -> {:?}", u, info));
                 lockq.lock().unwrap().timeline.push(TL::Update {
                     op: u,
@@ -361,7 +363,7 @@ pub async fn drive(sim: &Sim, case: &SoutCase, oracle: &mut dyn Oracle) -> RunSu
         }
         match op {
             Op::Update(u) => {
-                let info = node.handle.transaction(|d| u.apply(d));
+                let (u, info) = { let mut q = lockq.lock().unwrap(); let tr = &mut q.tracker; node.handle.transaction(|d| tr.apply(u, d)) };
                 sim.log(|| format!("user transaction: {:?} -> {:?}", u, info));
                 lockq.lock().unwrap().timeline.push(TL::Update {
                     op: u.clone(),
